@@ -6,6 +6,7 @@ package main
 import (
 	"fmt"
 	"os"
+	"os/exec"
 	"strings"
 
 	"go.uber.org/thriftrw/compile"
@@ -687,7 +688,55 @@ func plantNumeric(r *rng.R, p *Prog, g *gen) string {
 	return label
 }
 
+// c09Probe386 runs int32probe, built for a platform whose int is 32 bits wide: every source whose
+// number does not fit such an int must be rejected — not truncated and then accepted (finding D82,
+// repaired) — and the controls must compile to the numbers written.
+func c09Probe386(c *checker) {
+	if *probe386 == "" {
+		return
+	}
+	outB, err := exec.Command(*probe386).CombinedOutput()
+	out := string(outB)
+	c.rep.Hist("how", "GOARCH=386 probe")
+	if err != nil || !strings.HasPrefix(out, "intsize 32\n") {
+		c.rep.Notes = append(c.rep.Notes, "the GOARCH=386 probe could not be run on this machine (no 32-bit emulation?): "+summarize386(out)+" "+fmt.Sprint(err))
+		return
+	}
+	want := map[string]string{
+		"enum-2^32+1": "err", "enum-2^32": "err", "enum--2^32+1": "err", "enum-2^31": "err", "enum-2^63-1": "err",
+		"field-2^32+1": "err", "field-2^32+32767": "err", "field--2^32+1": "err",
+		"control-enum-max": "ok [E.A=2147483647]", "control-field-max": "ok [S.f=32767]", "control-const-i64": "ok [c=4294967297]",
+	}
+	seen := 0
+	for _, line := range strings.Split(strings.TrimSpace(out), "\n")[1:] {
+		f := strings.SplitN(line, " ", 2)
+		if len(f) != 2 {
+			continue
+		}
+		w, ok := want[f[0]]
+		if !ok {
+			continue
+		}
+		seen++
+		c.rep.Case("probe386 "+f[0], true)
+		if f[1] != w {
+			c.oracle("C09 on a platform with a 32-bit int the number is truncated before it is range-checked", "probe386 "+f[0], f[1], "want "+w)
+		}
+	}
+	if seen != len(want) {
+		c.oracle("C09 GOARCH=386 probe incomplete", "probe386", summarize386(out), fmt.Sprintf("%d of %d cases answered", seen, len(want)))
+	}
+}
+
+func summarize386(s string) string {
+	if len(s) > 300 {
+		return s[:300] + "…"
+	}
+	return s
+}
+
 func runC09(c *checker, r *rng.R) {
+	c09Probe386(c)
 	n := 100000
 	if *tier == "thorough" {
 		n = 1500000
@@ -704,7 +753,7 @@ func runC09(c *checker, r *rng.R) {
 		c09Program(c, p, "generated", "")
 	}
 	c.flush()
-	c.rep.Rule = "programs whose numeric literals sit around every type boundary (0, ±1, ±2^7, ±2^15, ±2^31, ±2^63 and neighbours; decimal, +signed, zero-padded decimal and hex spellings): field identifiers explicit / unset (auto-negative in non-strict mode), enum values explicit / implicit, integer constants and defaults of i8/i16/i32/i64/double/bool/enum types (also inside lists, maps, struct literals, through typedefs), strict and non-strict mode; 40% carry one planted defect the compiler must reject (identifier above 32767 / below 1 / below -32768 / unset / duplicate, duplicate names, literal beyond int64, enum value outside int32, integer constant or default outside its i8/i16/i32 type, bool other than 0/1, enum value that is no item or equals one only modulo 2^32, constant or service defined in terms of itself, also through struct / list / map literals of a recursive struct type); oracle: compiled numbers equal the source and lie in range, else rejected; compared with the Lean model; every case non-trivial; distinct by program. The shapes of the repaired findings D5 D6 D7 D8 D9 are ordinary planted defects and corpus entries."
+	c.rep.Rule = "programs whose numeric literals sit around every type boundary (0, ±1, ±2^7, ±2^15, ±2^31, ±2^63 and neighbours; decimal, +signed, zero-padded decimal and hex spellings): field identifiers explicit / unset (auto-negative in non-strict mode), enum values explicit / implicit, integer constants and defaults of i8/i16/i32/i64/double/bool/enum types (also inside lists, maps, struct literals, through typedefs), strict and non-strict mode; 40% carry one planted defect the compiler must reject (identifier above 32767 / below 1 / below -32768 / unset / duplicate, duplicate names, literal beyond int64, enum value outside int32, integer constant or default outside its i8/i16/i32 type, bool other than 0/1, enum value that is no item or equals one only modulo 2^32, constant or service defined in terms of itself, also through struct / list / map literals of a recursive struct type); oracle: compiled numbers equal the source and lie in range, else rejected; compared with the Lean model; every case non-trivial; distinct by program. The shapes of the repaired findings D5 D6 D7 D8 D9 are ordinary planted defects and corpus entries; plus a probe built for GOARCH=386 and run under 32-bit emulation: numbers that do not fit a 32-bit int must be rejected, not truncated (D82, repaired)."
 }
 
 // constReaches: does the value of `from` mention (at any depth, through other constants of the
